@@ -22,7 +22,7 @@ using namespace opentelemetry;
 #ifndef KITEMS
 #define KITEMS QMAX      // records produced before the operation under test (concrete per query: keeps sizes concrete)
 #endif
-#define NLOG 12
+#define NLOG 16
 #ifdef LOGS
 namespace sdkx = opentelemetry::sdk::logs;
 typedef sdkx::BatchLogRecordProcessor PROC; typedef sdkx::BatchLogRecordProcessorOptions OPTS; typedef sdkx::LogRecordExporter EXPBASE;
